@@ -121,7 +121,9 @@ func scrtmMain(path string) (bool, uint32, error) {
 	var versionBytes []byte
 	var err error
 	for _, path := range []string{
-		strings.Replace(path, ".fd", "_scrtm_ver.pb", 1),
+		// The side file is named after the image: only the .fd extension is replaced, not a ".fd"
+		// that occurs earlier in the path (e.g. in a directory name).
+		strings.TrimSuffix(path, ".fd") + "_scrtm_ver.pb",
 		path + ".scrtm.pb"} {
 		versionBytes, err = os.ReadFile(path)
 		if err == nil {
